@@ -1,12 +1,13 @@
 """C20 — lastIndex protocol and regex-driven string methods (structural clauses)."""
 
-from ..rules import limits, regexrules
+from ..rules import limits, regexrules, termination
 
 
 def run(ctx, rep):
     regexrules.rule_lastindex_sync(ctx, rep, "C20-R1")
     regexrules.rule_exec_test_agreement(ctx, rep, "C20-R2")
     limits.rule_regex_timeout_translated(ctx, rep, "C20-R3a")
+    termination.rule_native_loops_terminate(ctx, rep, "C20-R3")
     rep.undecided += [
         "the lastIndex state machine over histories of exec/test/assignment",
         "replacement-template expansion ($$, $&, $n ...) and split/match result values",
